@@ -4,6 +4,7 @@ import contextlib
 import datetime as dt
 import random as _random
 import threading as _real_threading
+import weakref
 
 import uberjob
 from uberjob._util import Missing
@@ -17,6 +18,18 @@ EPOCH = dt.datetime(2001, 1, 1)
 
 def tick_to_dt(t):
     return None if t is None else EPOCH + dt.timedelta(seconds=t)
+
+
+class Token:
+    """A fresh, weak-referenceable call result that holds no reference to its inputs (C16)."""
+
+    __slots__ = ("key", "__weakref__")
+
+    def __init__(self, key):
+        self.key = key
+
+    def __repr__(self):
+        return f"Token{self.key}"
 
 
 class BuildMismatch(Exception):
@@ -58,6 +71,10 @@ class LogicalStore(ValueStore):
             w.op_fail("rd", self.idx, e)
             raise
         w.op_end("rd", self.idx)
+        if w.token_mode:
+            t = Token(("rd", self.idx))
+            w.tokens[("rd", self.idx)] = weakref.ref(t)
+            return t
         return R(v) if self.normalising else v
 
     def write(self, value):
@@ -74,6 +91,8 @@ class LogicalStore(ValueStore):
         w.op_end("wr", self.idx)
 
     def _set(self, value):
+        if self.world.token_mode:
+            value = ("stored", repr(value))
         with self.world.lock:
             self.value = value
             self.world.clock += 1
@@ -113,6 +132,9 @@ class World:
         self.latch = None
         self.flaky_ops = {}
         self.op_attempts = {}
+        self.token_mode = False
+        self.tokens = {}
+        self.on_call_start = None
         self._build()
 
     # -- building ---------------------------------------------------------
@@ -320,8 +342,11 @@ class World:
             self.attempts[i] = attempt
             self.inflight += 1
             self.max_inflight = max(self.max_inflight, self.inflight)
-        self.received[i] = (args, list(kwargs.items()))
+        if not self.token_mode:
+            self.received[i] = (args, list(kwargs.items()))
         self.log("start", i, attempt)
+        if self.on_call_start is not None:
+            self.on_call_start(i)
         try:
             if self.latch is not None:
                 self.latch(i)
@@ -334,8 +359,12 @@ class World:
                 value = specs_const(beh["v"])
             elif t == "seq":
                 value = {"list": list, "tuple": tuple, "gen": iter}[beh["as"]](args)
+            elif self.token_mode:
+                value = Token(("call", i))
+                self.tokens[("call", i)] = weakref.ref(value)
             else:
                 value = Term(i, args, kwargs.items())
+            del args, kwargs
             side = nd.get("side")
             if side is not None:
                 store = self.stores[side]
